@@ -115,30 +115,41 @@ def final_weights(ops):
     return w
 
 
-def spec_wmc(nv, w, table):
-    tot = Fraction(0)
-    vs = sorted(w)
-    for k in range(1 << nv):
-        if (table >> k) & 1:
+class SpecW:
+    """truth-table weighted sums for one weight assignment: weight of every assignment of the registered variables
+    (assignments that set an unregistered variable are skipped: such variables do not occur in any formula) and, per
+    variable, the weight with that variable's factor left out."""
+
+    def __init__(self, nv, w):
+        self.nv, self.w = nv, w
+        vs = sorted(w)
+        self.wt = {}
+        self.wex = {v: {} for v in vs}
+        for k in range(1 << nv):
             if any(((k >> v) & 1) for v in range(nv) if v not in w):
-                continue        # unregistered variables: count each function once (they do not occur)
+                continue
+            fac = [w[v][0] if (k >> v) & 1 else w[v][1] for v in vs]
             p = Fraction(1)
-            for v in vs:
-                p *= w[v][0] if (k >> v) & 1 else w[v][1]
-            tot += p
-    return tot
+            for f in fac:
+                p *= f
+            self.wt[k] = p
+            for i, v in enumerate(vs):
+                q = Fraction(1)
+                for j, f in enumerate(fac):
+                    if j != i:
+                        q *= f
+                self.wex[v][k] = q
 
+    def wmc(self, table):
+        return sum((p for k, p in self.wt.items() if (table >> k) & 1), Fraction(0))
 
-def spec_grad(nv, w, table, v):
-    """derivative of the truth-table sum w.r.t. pos(v): Independent: neg = 1-pos moves too; Exclusive: neg constant."""
-    w1 = dict(w)
-    w1[v] = (Fraction(1), Fraction(0), w[v][2])
-    a = spec_wmc(nv, w1, table)
-    if w[v][2] is None:
-        w0 = dict(w)
-        w0[v] = (Fraction(0), Fraction(1), w[v][2])
-        return a - spec_wmc(nv, w0, table)
-    return a
+    def grad(self, table, v):
+        """derivative of the truth-table sum w.r.t. pos(v): Independent: neg = 1-pos moves too; Exclusive: neg constant."""
+        a = sum((q for k, q in self.wex[v].items() if (table >> k) & 1 and (k >> v) & 1), Fraction(0))
+        if self.w[v][2] is None:
+            b = sum((q for k, q in self.wex[v].items() if (table >> k) & 1 and not (k >> v) & 1), Fraction(0))
+            return a - b
+        return a
 
 
 def wmc_spec_applies(nv, w, table):
@@ -282,6 +293,10 @@ def group_history(rng, nv):
 
 
 # ---- evaluation of report cases -----------------------------------------------------------------------
+def unwords(ws):
+    return sum(w << (32 * i) for i, w in enumerate(ws))
+
+
 def is_err(x):
     return isinstance(x, tuple) and len(x) == 2 and x[0] == "ERROR"
 
@@ -325,21 +340,25 @@ def check_report(ctx, c, im, mo, stream, st):
     # budget (Spec): a budgeted operation returns Ok (already checked exact) or an exhaustion error; Ok result
     # equals the plain result = same class as any other handle with that table (covered by canonicity)
     w = final_weights(ops)
+    sw = SpecW(nv, w)
+    applies = {}
     if bad is None:
         for k, (x, s) in enumerate(zip(im["wmc"], spec)):
-            if hcodes[k] == 0 and wmc_spec_applies(nv, w, s):
-                e = spec_wmc(nv, w, s)
+            if s not in applies:
+                applies[s] = wmc_spec_applies(nv, w, s)
+            if hcodes[k] == 0 and applies[s]:
+                e = sw.wmc(s)
                 st["wmc_checked"] += 1
                 if abs(x - float(e)) > TOL:
                     bad = {"what": "wmc differs from the truth-table weighted sum", "slot": k, "impl": x, "spec": str(e)}
                     break
     if bad is None and "grads" in im:
         for k, (g, s) in enumerate(zip(im["grads"], spec)):
-            if hcodes[k] != 0 or not wmc_spec_applies(nv, w, s):
+            if hcodes[k] != 0 or not applies.get(s, False):
                 continue
             gd = {int(v): x for v, x in g}
             for v in w:
-                e = spec_grad(nv, w, s, v)
+                e = sw.grad(s, v)
                 st["grad_checked"] += 1
                 if abs(gd.get(v, 0.0) - float(e)) > TOL:
                     bad = {"what": "wmc_gradient differs from the truth-table derivative", "slot": k, "var": v,
@@ -359,6 +378,8 @@ def check_report(ctx, c, im, mo, stream, st):
         st["mis"] += 1
         return
     msteps, mtabs, mspec, mwmc, mmodels, mgrads, mdecomp = mo
+    mtabs = [unwords(x) for x in mtabs]
+    mspec = [unwords(x) for x in mspec]
     msteps = [list(x) for x in msteps]
     diff = None
     if mdecomp is not True:
@@ -411,8 +432,10 @@ def check_report(ctx, c, im, mo, stream, st):
 
 def evaluate_reports(ctx, binpath, cases, stream):
     impl = ctx.run_impl(binpath, cases)
+    ctx.log("%s: implementation ran %d histories" % (stream, len(cases)))
     exprs = ["report %s %s %s" % (cN(c["nv"]), cops(c["ops"]), "true" if c.get("detail") else "false") for c in cases]
     model = ctx.run_model(SUB, REQ, exprs, chunk=max(1, min(40, (len(exprs) + vf.NPROC - 1) // vf.NPROC)))
+    ctx.log("%s: model ran" % stream)
     st = dict(viol=0, mis=0, handles=0, errs=0, budgeted=0, wmc_checked=0, grad_checked=0, max_nodes=0)
     for c, im, mo in zip(cases, impl, model):
         check_report(ctx, c, im, mo, stream, st)
@@ -464,6 +487,7 @@ def evaluate_interrupts(ctx, binpath, cases, stream, model_points):
             st["viol"] += 1
             continue
         T = im["reference"]["target"][2]
+        outcome_diff = None
         bad = check_interrupted_run(nv, c, im["reference"], "unlimited budget")
         points = [("ref", None, im["reference"])]
         for k, run in enumerate(im["by_k"], start=1):
@@ -476,12 +500,11 @@ def evaluate_interrupts(ctx, binpath, cases, stream, model_points):
             if kind == "k":
                 st["deadline_points"] += 1
                 desc = "deadline expiring at checkpoint %d of %d" % (val, T)
-                # expiry at a checkpoint the operation reaches must be reported as exhaustion
-                if bad is None and val <= T and run["target"][0] != 1:
-                    bad = {"what": "deadline expired at checkpoint %d (of %d) but the operation did not report DeadlineExceeded" % (val, T),
-                           "outcome": run["target"]}
-                if bad is None and val > T and run["target"][0] != 0:
-                    bad = {"what": "deadline never expired during the operation but it failed", "outcome": run["target"]}
+                # The model reports DeadlineExceeded for every k <= T and Ok for k = T+1.  The property itself allows
+                # an implementation that notices the deadline later (as long as an Ok result is the right one, which the
+                # table check below decides), so a different outcome is a correspondence break, not a violation.
+                if (val <= T and run["target"][0] != 1) or (val > T and run["target"][0] != 0):
+                    outcome_diff = outcome_diff or "deadline expiring at checkpoint %d of %d: outcome %s" % (val, T, run["target"])
             elif kind == "n":
                 st["node_points"] += 1
                 desc = "node budget %d" % val
@@ -497,6 +520,10 @@ def evaluate_interrupts(ctx, binpath, cases, stream, model_points):
             ctx.violation(c, bad)
             st["viol"] += 1
             continue
+        if outcome_diff:
+            ctx.broken("correspondence", stream, "implementation does not stop at the checkpoint the model stops at "
+                       "(results are still correct): " + outcome_diff, c)
+            st["mis"] += 1
         ctx.nontrivial(json.dumps(c))
         # model points: a subset of the expiry points and node budgets
         ks = list(range(1, T + 2))
@@ -523,6 +550,7 @@ def evaluate_interrupts(ctx, binpath, cases, stream, model_points):
             continue
         mt, mpost, mtabs = mo
         mt = mt[0]
+        mtabs = [unwords(x) for x in mtabs]
         diff = None
         it = run["target"]
         if [it[0], it[2], it[3]] != [mt[0], mt[2], mt[3]]:
@@ -657,11 +685,12 @@ def run(ctx):
     stride = 1 if ctx.thorough else 3
     pairs = evaluate_sweep3(ctx, binpath, [{"mode": "sweep3", "order": list(o), "stride": stride, "offset": i}
                                            for i, o in enumerate(orders)])
+    ctx.log("three-variable sweep on the implementation done")
     ctx.coverage["exhaustive"] = True
     ctx.coverage["exhaustive_scope"] = ("real manager: %d operand pairs (a, b, op) over the 256 functions of three variables, six "
                                         "introduction orders (stride %d), plus negate of all 256" % (pairs, 1 if ctx.thorough else 3))
     # random histories
-    n = 1500 if ctx.thorough else 150
+    n = 1500 if ctx.thorough else 200
     cases = []
     for i in range(n):
         nv = rng.choice([1, 2, 3, 3, 4, 4, 5, 6, 7, 8])
@@ -674,8 +703,9 @@ def run(ctx):
     ctx.sample({"nv": cases[0]["nv"], "ops": cases[0]["ops"][:14]})
     ctx.sample({"nv": cases[-1]["nv"], "ops": cases[-1]["ops"][:14]})
     evaluate_reports(ctx, binpath, cases, "random")
+    ctx.log("random histories done")
     # interruption
-    ni = 120 if ctx.thorough else 14
+    ni = 120 if ctx.thorough else 20
     icases = []
     for i in range(ni):
         nv = rng.choice([2, 3, 4, 5, 6])
